@@ -2,6 +2,7 @@ import Driver.SExp
 import UscxmlVerif.Model.Large
 import UscxmlVerif.Model.Fast
 import UscxmlVerif.Spec.W3C
+import UscxmlVerif.Model.Api
 namespace Driver
 open UscxmlVerif UscxmlVerif.Model
 
@@ -55,6 +56,30 @@ def trace (line : String) : String :=
       | "spec" => " ".intercalate (Spec.W3C.run c events)
       | "specq" => " ".intercalate (Spec.W3C.run c events { histDomainRaw := true, sharedHistory := true })
       | _ => "bad-engine"
+    | none => "bad-chart"
+  | _ => "bad-op"
+
+def parseOp (s : String) : Option Model.Api.Op :=
+  if s == "s" then some .step
+  else if s == "q" then some .quiesce
+  else if s == "c" then some .cancel
+  else if s == "r" then some .reset
+  else if s == "d" then some .destroy
+  else if s == "g" then some .getState
+  else if s.startsWith "e:" then some (.receive (s.drop 2).toString)
+  else none
+
+/-- request `<engine>\t<chart s-expression>\t<comma separated ops>` -/
+def api (line : String) : String :=
+  match line.splitOn "\t" with
+  | engine :: sx :: ops :: _ =>
+    match parseSExp sx >>= parseDocNamed with
+    | some (d, late) =>
+      let c := flatten d late
+      let ops := if ops == "-" then [] else (ops.splitOn ",").filterMap parseOp
+      let eng : Model.Api.Engine := if engine == "fast" then .fast else .large
+      let s := Model.Api.run eng c ops
+      " ".intercalate (s.log ++ ["end"])
     | none => "bad-chart"
   | _ => "bad-op"
 
